@@ -26,7 +26,7 @@ LAYOUTS = ((1, "AA+BB"), (2, "AABB"), (4, "AABBCRCI"), (4, "STOKE"))
 
 def REQUIRED(tier):
     return ["files_generated", "files_in_domain", "whole_file_checks", "position_requests", "regime:unaligned_start", "regime:crosses_subint", "plan_checks", "reduction_checks",
-            "header_type_checks", "band:ascending", "band:descending", "layout:AABBCRCI", "layout:STOKE", "mutation_checks", "regime:partial_last_subint"]
+            "header_type_checks", "band:ascending", "band:descending", "layout:AABBCRCI", "layout:STOKE", "mutation_checks", "regime:partial_last_subint", "regime:chan_bw_card_disagrees_with_dat_freq"]
 
 
 def cases(tier, seed):
@@ -57,9 +57,15 @@ def _gen(case, ctx):
     meta = dict(nbits=nbits, pol_type=pol, freqs=freqs, tbin=tbin, scl=scl, offs=offs, wts=wts, zero_off=zero_off)
     # one file in three has a partly filled last sub-integration: NSTOT (the number of valid samples) < NSBLK * rows
     nstot = nsub * nsblk - (int(rng.integers(1, nsblk)) if case["fseed"] % 3 == 1 else 0)
-    psrfits.write_psrfits(path, raw, nstot=nstot, **meta)
+    # the CHAN_BW card is informational: some writers store a plain positive width, or the sideband sign, whatever the order
+    # of the DAT_FREQ table (which is what defines the channel order)
+    cbw = None
+    if case["fseed"] % 4 == 2:
+        step = float(freqs[1] - freqs[0])
+        cbw = -step if case["fseed"] % 8 == 2 else abs(step) * (1 if step < 0 else -1)
+    psrfits.write_psrfits(path, raw, nstot=nstot, chan_bw=cbw, **meta)
     ref = psrfits.reference_values(raw, pol_type=pol, freqs=freqs, scl=scl, offs=offs, wts=wts, zero_off=zero_off)[:nstot]
-    info = {"nsub": nsub, "nsblk": nsblk, "nchan": nchan, "npol": npol, "pol_type": pol, "nbits": nbits, "ascending": ascending, "zero_off": zero_off, "tbin": tbin, "nstot": nstot}
+    info = {"nsub": nsub, "nsblk": nsblk, "nchan": nchan, "npol": npol, "pol_type": pol, "nbits": nbits, "ascending": ascending, "zero_off": zero_off, "tbin": tbin, "nstot": nstot, "chan_bw_card_disagrees": cbw is not None}
     return path, ref, freqs, info
 
 
@@ -198,36 +204,38 @@ def run_case(case, ctx):
     bwv = -abs(float(freqs[1] - freqs[0])) if nch > 1 else -1.0
     sigfile.write_fil(twin, np.asarray(whole.data, dtype=np.float32).T, 32, fch1=fd, foff=bwv, tsamp=info["tbin"])
     fil = FilReader(twin)
-    gulp = max(1, N // 3)
-    for op in ("collapse", "bandpass", "dedisperse", "stats"):
-        ctx.evaluated(); ctx.count("reduction_checks")
-        req = dict(one, op=op)
-        try:
-            with np.errstate(all="ignore"):
-                if op == "collapse":
-                    a, b = rd.collapse(gulp=gulp, quiet=True, description="v").data, fil.collapse(gulp=gulp, quiet=True, description="v").data
-                elif op == "bandpass":
-                    a, b = rd.bandpass(gulp=gulp, quiet=True, description="v").data, fil.bandpass(gulp=gulp, quiet=True, description="v").data
-                elif op == "dedisperse":
-                    # largest DM from a small menu whose delays fit in a quarter of the file (domain: maxdelay < nsamps)
-                    dm = 0.0
-                    for cand in (50.0, 10.0, 2.0, 0.5, 0.1):
-                        dl = np.asarray(fil.header.get_dmdelays(cand)).reshape(-1)
-                        if dl.min() >= 0 and dl.max() < max(1, N // 4):
-                            dm = cand
-                            break
-                    a, b = rd.dedisperse(dm, gulp=gulp, quiet=True, description="v").data, fil.dedisperse(dm, gulp=gulp, quiet=True, description="v").data
-                else:
-                    rd.compute_stats(gulp=gulp, quiet=True, description="v")
-                    fil.compute_stats(gulp=gulp, quiet=True, description="v")
-                    a = np.concatenate([rd.chan_stats.mean, rd.chan_stats.var, rd.chan_stats.maxima, rd.chan_stats.minima])
-                    b = np.concatenate([fil.chan_stats.mean, fil.chan_stats.var, fil.chan_stats.maxima, fil.chan_stats.minima])
-        except Exception as exc:  # noqa: BLE001
-            ctx.violation(f"reduction-raised:{op}:{type(exc).__name__}@{exc_site(exc)}", f"{op} on PFITSReader: {fmt_exc(exc)}", req)
-            continue
-        a, b = np.asarray(a, dtype=np.float64), np.asarray(b, dtype=np.float64)
-        if a.shape != b.shape or np.any(np.abs(a - b) > 1e-4 * np.maximum(1.0, np.abs(b))):
-            ctx.violation(f"reduction-differs:{op}[{band}]", f"{op} over the PSRFITS reader differs from the SIGPROC file holding the same samples (shapes {a.shape} vs {b.shape})", req)
+    if info["chan_bw_card_disagrees"]:
+        ctx.count("regime:chan_bw_card_disagrees_with_dat_freq")
+    for gulp in sorted({max(1, N // 3), nsblk + 3, max(1, 2 * nsblk - 1), N}):
+      for op in ("collapse", "bandpass", "dedisperse", "stats", "read_chan"):
+          ctx.evaluated(); ctx.count("reduction_checks")
+          req = dict(one, op=op)
+          try:
+              with np.errstate(all="ignore"):
+                  if op == "collapse":
+                      a, b = rd.collapse(gulp=gulp, quiet=True, description="v").data, fil.collapse(gulp=gulp, quiet=True, description="v").data
+                  elif op == "bandpass":
+                      a, b = rd.bandpass(gulp=gulp, quiet=True, description="v").data, fil.bandpass(gulp=gulp, quiet=True, description="v").data
+                  elif op == "dedisperse":
+                      # largest DM from a small menu whose delays fit in a quarter of the file (domain: maxdelay < nsamps)
+                      dm = 0.0
+                      for cand in (50.0, 10.0, 2.0, 0.5, 0.1):
+                          dl = np.asarray(fil.header.get_dmdelays(cand)).reshape(-1)
+                          if dl.min() >= 0 and dl.max() < max(1, N // 4):
+                              dm = cand
+                              break
+                      a, b = rd.dedisperse(dm, gulp=gulp, quiet=True, description="v").data, fil.dedisperse(dm, gulp=gulp, quiet=True, description="v").data
+                  else:
+                      rd.compute_stats(gulp=gulp, quiet=True, description="v")
+                      fil.compute_stats(gulp=gulp, quiet=True, description="v")
+                      a = np.concatenate([rd.chan_stats.mean, rd.chan_stats.var, rd.chan_stats.maxima, rd.chan_stats.minima])
+                      b = np.concatenate([fil.chan_stats.mean, fil.chan_stats.var, fil.chan_stats.maxima, fil.chan_stats.minima])
+          except Exception as exc:  # noqa: BLE001
+              ctx.violation(f"reduction-raised:{op}:{type(exc).__name__}@{exc_site(exc)}", f"{op} on PFITSReader: {fmt_exc(exc)}", req)
+              continue
+          a, b = np.asarray(a, dtype=np.float64), np.asarray(b, dtype=np.float64)
+          if a.shape != b.shape or np.any(np.abs(a - b) > 1e-4 * np.maximum(1.0, np.abs(b))):
+              ctx.violation(f"reduction-differs:{op}[{band}]", f"{op} over the PSRFITS reader differs from the SIGPROC file holding the same samples (shapes {a.shape} vs {b.shape})", req)
     if case["fseed"] % 4 == 0:
         ctx.sample({"file": info, "N": N, "requests_checked": "all (start,nsamps)" if step == 1 else "stride 7"})
     for p in (path, twin):
